@@ -64,6 +64,7 @@ Judge(c, s, e) ==
             ELSE Check(<< << asMesh = want /\ Len(b.F) = Cardinality(want), "boundary_consists_of_exactly_the_border_faces" >>,
                           << ClosedSurface(b.F, b.nv), "boundary_surface_is_closed" >>,
                           << (op = "extract_boundary" /\ ~s.pos) \/ outward, "boundary_oriented_outwards" >>,
+                          << b.posok = 1, "boundary_vertices_keep_the_positions_of_their_volume_vertices" >>,
                           << op = "extract_boundary" \/
                              ( /\ inv(b.b2mf, b.m2bf) /\ inv(b.b2me, b.m2be)
                                /\ \A p \in TSet(b.b2mf) : TSet(img(b.F[p[1] + 1])) = TSet(D.F[p[2] + 1])
